@@ -216,15 +216,44 @@ pub struct Observed {
 
 pub const ITEM_LIMIT: usize = 20_000;
 
+thread_local! {
+    static WALK_SEQ: std::cell::Cell<u64> = const { std::cell::Cell::new(0) };
+}
+
+/// Sequence number of the most recent walk on this thread (syscall-marker tier).
+pub fn last_walk_seq() -> u64 {
+    WALK_SEQ.with(|s| s.get())
+}
+
+pub fn syscall_markers_enabled() -> bool {
+    std::env::var_os("WAXMON_SYSCALL_MARKERS").is_some()
+}
+
+/// Emits a recognisable `access()` call so that an external syscall trace can be cut into walks.
+fn marker(kind: &str, seq: u64) {
+    if syscall_markers_enabled() {
+        let path = format!("/waxmon-marker/{}/{}/{}\0", kind, std::process::id(), seq);
+        unsafe {
+            libc::access(path.as_ptr() as *const libc::c_char, libc::F_OK);
+        }
+    }
+}
+
 /// Walks `base` (a path walk, or a glob walk if `glob` is given) through the layers.
 pub fn run(base: &Path, glob: Option<&Glob<'_>>, behavior: WalkBehavior, layers: &[LayerRt]) -> Observed {
     use wax::walk::PathExt;
     let _ = wax::walk::verif_take_events();
     let mut items = Vec::new();
+    let seq = WALK_SEQ.with(|s| {
+        s.set(s.get() + 1);
+        s.get()
+    });
+    marker("begin", seq);
     let r = match glob {
         Some(g) => apply4(g.walk_with_behavior(base.to_path_buf(), behavior), layers, &mut items, ITEM_LIMIT),
         None => apply4(base.walk_with_behavior(behavior), layers, &mut items, ITEM_LIMIT),
     };
+    marker("end", seq);
     let events = wax::walk::verif_take_events();
     Observed {
         items,
